@@ -36,7 +36,15 @@ def correspond(ctx):
 
 
 def search(ctx):
-    pass
+    """failing-input search: the disagreeing cases run to the end under the statement monitors, then a wider
+    population of runs with operator commands"""
+    from harness import engine_stream
+    from vlib import par
+    engine_stream.search_from_core(ctx, ['C03'], 'plain')
+    if ctx.violations:
+        return
+    par.run_parallel(ctx, 'harness.engine_stream', 'run_chunk',
+                     [{'n_programs': 30, 'props': ['C03'], 'mode': 'ops', 'p_err': 0.2}] * 14)
 
 
 def replay(ctx, rep):
